@@ -54,9 +54,10 @@ class ForLoop:
         i = tree.indices[0]
         e = i.expression
         start = e.start.value
-        step = e.step.value
+        step = self.generator.get_integer(e.step)
         stop = self.generator.get_integer(e.stop)
-        self.values = np.arange(start, stop + step, step, dtype=int)
+        # The range includes stop only if a whole number of steps reaches it
+        self.values = np.arange(start, stop + (1 if step > 0 else -1), step, dtype=int)
         self.index_variable = _new_mx(i.name)
         self.name = i.name
         self.indexed_symbols = OrderedDict()
